@@ -368,6 +368,7 @@ type explorer struct {
 	nCarried int
 	havoc    map[*ssa.BasicBlock]map[*ssa.Alloc]bool // loop header -> cells to havoc
 	havocF   map[*ssa.BasicBlock]map[psFieldKey]bool   // loop header -> fields of local structs written in the loop
+	fills    map[*ssa.BasicBlock]map[*ssa.MakeSlice]bool // loop header -> pre-sized slices filled by index in the loop
 	rerun    bool
 	carried  map[int][]*T          // loop instance -> ... sources per carried id
 	carSrc   map[int][]*T          // carried id -> back-edge sources
@@ -383,6 +384,8 @@ type carriedOrigin struct {
 	phi   *ssa.Phi
 	cell  cellKey
 	field string // key into state.fields: a field of a local struct that is updated inside the loop
+	fill  *ssa.MakeSlice // a slice made with the length of the ranged collection and filled by index: read as an accumulator
+	fillFrame int
 }
 
 // psFieldKey: a field of a struct-typed local (an Alloc), as loop-carried state.
@@ -415,7 +418,7 @@ func (p *Prog) Paths(entry *ssa.Function, opts PSOpts) []*Path {
 	}
 	g := p.CG()
 	x := &explorer{p: p, g: g, opts: opts, entry: entry, family: map[*ssa.Function]bool{},
-		havoc: map[*ssa.BasicBlock]map[*ssa.Alloc]bool{}, havocF: map[*ssa.BasicBlock]map[psFieldKey]bool{}, loopsOf: map[*ssa.Function]map[*ssa.BasicBlock]map[*ssa.BasicBlock]bool{}}
+		havoc: map[*ssa.BasicBlock]map[*ssa.Alloc]bool{}, havocF: map[*ssa.BasicBlock]map[psFieldKey]bool{}, fills: map[*ssa.BasicBlock]map[*ssa.MakeSlice]bool{}, loopsOf: map[*ssa.Function]map[*ssa.BasicBlock]map[*ssa.BasicBlock]bool{}}
 	for _, f := range p.Funcs {
 		if g.SameSCC(entry, f) || f == entry {
 			x.family[f] = true
@@ -450,6 +453,27 @@ func (p *Prog) Paths(entry *ssa.Function, opts PSOpts) []*Path {
 			break
 		}
 	}
+	// an iteration that does nothing but collect the current key of a map into a list of all its keys is
+	// bookkeeping for the sorted enumeration that follows (the sort of such a list is read as
+	// slices.Sorted(maps.Keys(m))): it is not an iteration "over the entries" that rules should see
+	kept := x.paths[:0:0]
+	for _, pa := range x.paths {
+		if pa.End == "iter" && x.onlyCollectsKeys(pa) {
+			inLoop := false
+			for _, e := range pa.Effects {
+				for _, l := range e.Loops {
+					if l == pa.Loop {
+						inLoop = true
+					}
+				}
+			}
+			if !inLoop {
+				continue
+			}
+		}
+		kept = append(kept, pa)
+	}
+	x.paths = kept
 	// resolve carried terms that turned out constant is done during exploration; attach sources
 	p.pathCache[key] = x.paths
 	if p.carriedInfo == nil {
@@ -803,6 +827,30 @@ func (x *explorer) enterLoop(st *state, fr *frame, h, prev *ssa.BasicBlock, body
 		x.loopCars[li.id] = append(x.loopCars[li.id], ct.N)
 		st.cells[ck] = ct
 	}
+	// r := make([]T, len(xs)); for i, x := range xs { r[i] = f(x) } is the pre-sized spelling of
+	// r := []T{}; for _, x := range xs { r = append(r, f(x)) }: give r the terms of the second form
+	var mks []*ssa.MakeSlice
+	for mk := range x.fills[h] {
+		mks = append(mks, mk)
+	}
+	sort.Slice(mks, func(i, j int) bool { return mks[i].Pos() < mks[j].Pos() })
+	for _, mk := range mks {
+		if mk.Parent() != fr.fn {
+			continue
+		}
+		key := envKey{fr.id, mk}
+		cur, ok := st.env[key]
+		if !ok || cur.Op != "fresh" {
+			continue
+		}
+		x.nCarried++
+		x.nTerms++
+		ct := &T{Op: "carried", Name: "filled", N: x.nCarried, V: mk, Typ: concreteType(mk.Type())}
+		x.carInit[ct.N] = &T{Op: "lit", N: x.nTerms, V: mk, Typ: concreteType(mk.Type())}
+		x.carOf[ct.N] = carriedOrigin{fill: mk, fillFrame: fr.id}
+		x.loopCars[li.id] = append(x.loopCars[li.id], ct.N)
+		st.env[key] = ct
+	}
 	// fields of a struct local of this function that the loop body (or a helper it hands the struct's address to)
 	// updates: the same loop-carried state, kept in a struct instead of separate variables
 	var fks []psFieldKey
@@ -844,10 +892,8 @@ func (x *explorer) enterLoop(st *state, fr *frame, h, prev *ssa.BasicBlock, body
 // zeroField: the value of a field of a struct local that has not been stored to yet: the zero value, unless the
 // struct was overwritten as a whole.
 func (x *explorer) zeroField(st *state, obj *T, fk psFieldKey) *T {
-	for _, e := range st.effects {
-		if e.Kind == "ptrset" && len(e.Args) > 0 && e.Args[0].String() == obj.String() {
-			return &T{Op: "field", Name: fk.f, Args: []*T{obj}}
-		}
+	if w, ok := st.fields[obj.String()+"|*"]; ok {
+		return x.fieldOfValue(st, x.subst(st, w), fk.f, fk.al, nil)
 	}
 	stt, ok := fk.al.Type().Underlying().(*types.Pointer).Elem().Underlying().(*types.Struct)
 	if !ok {
@@ -859,6 +905,76 @@ func (x *explorer) zeroField(st *state, obj *T, fk psFieldKey) *T {
 		}
 	}
 	return &T{Op: "field", Name: fk.f, Args: []*T{obj}}
+}
+
+// fillStore: base[idx] = v where base is a slice made with the length of the collection the innermost loop ranges
+// over and idx is that loop's index. The first time this is seen the loop is marked (and the exploration re-run);
+// from then on the slice is an accumulator and the store is an append.
+func (x *explorer) fillStore(st *state, base, idx, v *T) bool {
+	if idx.Op != "idx" {
+		return false
+	}
+	// the loop whose index this is, and what it ranges over
+	var loop *loopInst
+	for i := len(st.loops) - 1; i >= 0 && loop == nil; i-- {
+		for _, id := range x.loopCars[st.loops[i].id] {
+			if id == idx.N {
+				loop = &st.loops[i]
+			}
+		}
+	}
+	if loop == nil || loop.id != st.loops[len(st.loops)-1].id {
+		return false
+	}
+	ranged := ""
+	for i := len(st.guards) - 1; i >= 0; i-- {
+		g := st.guards[i]
+		if g.Kind == "itermore" && !g.Neg && g.A != nil && g.A.Op == "range" && g.A.N == idx.N && len(g.A.Args) == 1 {
+			ranged = g.A.Args[0].String()
+			break
+		}
+	}
+	if ranged == "" {
+		return false
+	}
+	switch {
+	case base.Op == "fresh" && base.Name == "slice":
+		mk, ok := base.V.(*ssa.MakeSlice)
+		if !ok || len(base.Args) != 1 || base.Args[0].Op != "len" || len(base.Args[0].Args) != 1 || base.Args[0].Args[0].String() != ranged {
+			return false
+		}
+		if x.fills[loop.header] == nil {
+			x.fills[loop.header] = map[*ssa.MakeSlice]bool{}
+		}
+		if !x.fills[loop.header][mk] {
+			x.fills[loop.header][mk] = true
+			x.rerun = true
+		}
+		return false
+	case base.Op == "carried" || base.Op == "append":
+		root := base
+		for root.Op == "append" && len(root.Args) == 2 {
+			root = root.Args[0]
+		}
+		if root.Op != "carried" {
+			return false
+		}
+		o, ok := x.carOf[root.N]
+		if !ok || o.fill == nil {
+			return false
+		}
+		key := envKey{o.fillFrame, o.fill}
+		cur, ok := st.env[key]
+		if !ok {
+			return false
+		}
+		x.nTerms++
+		lit := &T{Op: "lit", N: x.nTerms, Args: []*T{v}}
+		x.nTerms++
+		st.env[key] = &T{Op: "append", N: x.nTerms, Args: []*T{cur, lit}, V: o.fill, Typ: cur.Typ}
+		return true
+	}
+	return false
 }
 
 // noteFieldWrite: a store to a field of a struct local that existed before an active loop of its function was
@@ -904,6 +1020,10 @@ func (x *explorer) backEdge(st *state, fr *frame, h, prev *ssa.BasicBlock, l loo
 			}
 		} else if o.field != "" {
 			if fv, ok := st.fields[o.field]; ok {
+				v = x.subst(st, fv)
+			}
+		} else if o.fill != nil {
+			if fv, ok := st.env[envKey{o.fillFrame, o.fill}]; ok {
 				v = x.subst(st, fv)
 			}
 		} else {
@@ -1173,7 +1293,7 @@ func (x *explorer) cond(st *state, t *T) (Atom, bool, bool) {
 			}
 			if b.IsNil() {
 				// fresh containers and boxed concrete values are never nil
-				if a.Op == "fresh" || a.Op == "closure" || (a.Typ != nil && !nilableConcrete(a.Typ)) {
+				if a.Op == "fresh" || a.Op == "closure" || a.Op == "addr" || (a.Typ != nil && !nilableConcrete(a.Typ)) {
 					return Atom{}, true, neg
 				}
 				if neverNil(a) {
@@ -1217,6 +1337,12 @@ func (x *explorer) cond(st *state, t *T) (Atom, bool, bool) {
 				return Atom{}, true, r
 			}
 		}
+		if a.Op == "const" && b.Op != "const" {
+			// constant on the left: 0 < len(x) is len(x) > 0
+			if m, ok := map[string]string{"<": ">", "<=": ">=", ">": "<", ">=": "<="}[op]; ok {
+				a, b, op = b, a, m
+			}
+		}
 		if a.Op == "len" && b.Op == "const" {
 			// normalise to len(x) >= n / len(x) == 0
 			switch op {
@@ -1224,8 +1350,16 @@ func (x *explorer) cond(st *state, t *T) (Atom, bool, bool) {
 				if b.Name == "0" {
 					return Atom{Kind: "len", A: a.Args[0], Const: "==0", Neg: true}, false, false
 				}
+			case ">=":
+				if b.Name == "1" {
+					return Atom{Kind: "len", A: a.Args[0], Const: "==0", Neg: true}, false, false
+				}
 			case "<":
 				if b.Name == "1" {
+					return Atom{Kind: "len", A: a.Args[0], Const: "==0"}, false, false
+				}
+			case "<=":
+				if b.Name == "0" {
 					return Atom{Kind: "len", A: a.Args[0], Const: "==0"}, false, false
 				}
 			}
@@ -1542,6 +1676,10 @@ func (x *explorer) instr(st *state, fr *frame, in ssa.Instruction) {
 	case *ssa.Field:
 		base := x.val(st, fr, ins.X)
 		st0 := ins.X.Type().Underlying().(*types.Struct)
+		if base.Op == "deref" && len(base.Args) == 1 && base.Args[0].Op == "fresh" {
+			x.set(st, fr, ins, x.fieldOfValue(st, base, structFieldKey(ins.X.Type(), ins.Field), ins, concreteType(ins.Type())))
+			return
+		}
 		x.set(st, fr, ins, &T{Op: "field", Name: st0.Field(ins.Field).Name(), Args: []*T{base}, V: ins})
 	case *ssa.Slice:
 		base := x.val(st, fr, ins.X)
@@ -1673,6 +1811,9 @@ func (x *explorer) store(st *state, fr *frame, addr, v *T, pos token.Pos) {
 				return
 			}
 		}
+		if x.fillStore(st, base, addr.Args[1], v) {
+			return
+		}
 		x.effect(st, fr, Effect{Kind: "elemset", Args: []*T{base, addr.Args[1], v}, Pos: pos})
 		return
 	}
@@ -1691,6 +1832,21 @@ func (x *explorer) store(st *state, fr *frame, addr, v *T, pos token.Pos) {
 	}
 	if addr.Op == "addr" && strings.HasPrefix(addr.Name, "global:") {
 		x.effect(st, fr, Effect{Kind: "globalset", Callee: addr.Name, Args: []*T{v}, Pos: pos})
+		return
+	}
+	if al, isLocal := addr.V.(*ssa.Alloc); isLocal && addr.Op == "fresh" && addr.Name == "struct" {
+		if al.Heap {
+			// the object outlives the function (its address is returned or stored): the assignment stays visible
+			x.effect(st, fr, Effect{Kind: "ptrset", Args: []*T{addr, v}, Pos: pos})
+		}
+		// a struct-typed local assigned as a whole: its fields are the fields of the value
+		pre := addr.String() + "|"
+		for k := range st.fields {
+			if strings.HasPrefix(k, pre) {
+				delete(st.fields, k)
+			}
+		}
+		st.fields[pre+"*"] = v
 		return
 	}
 	if addr.Op == "free" {
@@ -1743,6 +1899,9 @@ func (x *explorer) load(st *state, fr *frame, addr *T, ins *ssa.UnOp) *T {
 		if v, ok := st.fields[obj.String()+"|"+f]; ok {
 			return x.subst(st, v)
 		}
+		if w, ok := st.fields[obj.String()+"|*"]; ok {
+			return x.fieldOfValue(st, x.subst(st, w), f, ins, typ)
+		}
 		short := f
 		if i := strings.LastIndex(f, "."); i >= 0 {
 			short = f[i+1:]
@@ -1758,7 +1917,39 @@ func (x *explorer) load(st *state, fr *frame, addr *T, ins *ssa.UnOp) *T {
 		}
 		return &T{Op: "freeval", Name: addr.Name, V: ins, Typ: typ}
 	}
+	if addr.Op == "fresh" && addr.Name == "struct" {
+		if w, ok := st.fields[addr.String()+"|*"]; ok {
+			hasOwn := false
+			pre := addr.String() + "|"
+			for k := range st.fields {
+				if strings.HasPrefix(k, pre) && k != pre+"*" {
+					hasOwn = true
+				}
+			}
+			if !hasOwn {
+				return x.subst(st, w)
+			}
+		}
+	}
 	return &T{Op: "deref", Args: []*T{addr}, V: ins, Typ: typ}
+}
+
+// fieldOfValue: field f (qualified name) of the struct value w.
+func (x *explorer) fieldOfValue(st *state, w *T, f string, v ssa.Value, typ types.Type) *T {
+	if w.Op == "deref" && len(w.Args) == 1 && w.Args[0].Op == "fresh" {
+		obj := w.Args[0]
+		if fv, ok := st.fields[obj.String()+"|"+f]; ok {
+			return x.subst(st, fv)
+		}
+		if w2, ok := st.fields[obj.String()+"|*"]; ok {
+			return x.fieldOfValue(st, x.subst(st, w2), f, v, typ)
+		}
+	}
+	short := f
+	if i := strings.LastIndex(f, "."); i >= 0 {
+		short = f[i+1:]
+	}
+	return &T{Op: "field", Name: short, Args: []*T{w}, V: v, Typ: typ}
 }
 
 // ---- calls ------------------------------------------------------------------------------------
@@ -1947,6 +2138,10 @@ func (x *explorer) call(st *state, fr *frame, b, prev *ssa.BasicBlock, idx int, 
 	if name == "strings.Replace" && len(args) == 4 && args[3].IsConst("-1") {
 		name, args = "strings.ReplaceAll", args[:3]
 	}
+	if name == "fmt.Sprint" && len(args) == 1 && args[0].Op == "lit" && len(args[0].Args) == 1 {
+		// one operand: the %v text of it
+		name, args = "fmt.Sprintf", []*T{mkConst(`"%v"`, types.Typ[types.String]), args[0]}
+	}
 	// sorting a slice that holds exactly the keys of a map gives slices.Sorted(maps.Keys(m)), however the keys were
 	// collected (slices.Collect(maps.Keys(m)), or a loop appending every key)
 	if (name == "slices.Sort" || name == "sort.Strings") && len(args) == 1 {
@@ -1970,6 +2165,10 @@ func (x *explorer) call(st *state, fr *frame, b, prev *ssa.BasicBlock, idx int, 
 		}
 	} else {
 		kind = "extcall"
+	}
+	if kind != "extcall" {
+		// arguments in the parameter order of the pinned tree: positional matchers survive a reordering
+		args = x.p.frozenArgOrder(callee, args)
 	}
 	ct := &T{Op: op, Name: name, N: x.nTerms, Args: args, V: val}
 	if !(kind == "extcall" && pureExternals[name]) {
@@ -2149,6 +2348,24 @@ func (x *explorer) keysOfMap(t *T) *T {
 	return m
 }
 
+// onlyCollectsKeys: every loop-carried update of the iteration is the identity, the range index, or the append
+// of the current map key to a list that holds exactly the keys of that map.
+func (x *explorer) onlyCollectsKeys(pa *Path) bool {
+	n := 0
+	for id, v := range pa.Carried {
+		switch {
+		case v.Op == "carried" && v.N == id, v.Op == "idx":
+		case v.Op == "append" && len(v.Args) == 2 && v.Args[0].Op == "carried" && v.Args[0].N == id &&
+			v.Args[1].Op == "lit" && len(v.Args[1].Args) == 1 && v.Args[1].Args[0].Op == "key" &&
+			x.keysOfMap(v.Args[0]) != nil:
+			n++
+		default:
+			return false
+		}
+	}
+	return n > 0
+}
+
 // countedIndexPhi: phi is the counter of "for i := 0; i < len(x); i++": on every way back to the header it is
 // phi+1, nothing else assigns it, and the header leaves the loop on !(phi < len(x)).
 func countedIndexPhi(phi *ssa.Phi, h *ssa.BasicBlock, body map[*ssa.BasicBlock]bool) bool {
@@ -2276,4 +2493,18 @@ func simplifyBool(guards []Atom, t *T, depth int) *T {
 		}
 	}
 	return t
+}
+
+// structFieldKey: the qualified name FieldAddr-based stores use for field i of struct type t.
+func structFieldKey(t types.Type, i int) string {
+	stt := t.Underlying().(*types.Struct)
+	name := stt.Field(i).Name()
+	if nt, ok := t.(*types.Named); ok {
+		pk := ""
+		if nt.Obj().Pkg() != nil {
+			pk = nt.Obj().Pkg().Path() + "."
+		}
+		return pk + nt.Obj().Name() + "." + name
+	}
+	return t.String() + "." + name
 }
